@@ -129,6 +129,8 @@ pub fn iim<Int: Clone + Integer + NumAssign>(
         let mut c = vec![Ratio::<Int>::zero(); m];
         for k in j + 1..m {
             c[k] = &d * &mmat[j][k];
+            // Column k loses c[k] times column j, which clears row j.
+            mmat[j][k] = Ratio::<Int>::zero();
         }
         for l in j + 1..n {
             for k in j + 1..m {
